@@ -10,7 +10,6 @@ import numpy as np
 from hypothesis import strategies as st
 
 from ..common import (CaseInfo, PamsCrash, Recorder, VERIF_DIR, Violation, _new_result, derive_seed, run_hypothesis)
-from ..digest import digest_case
 from ..strategies import crossing_pair, sim_cases
 from ._sim_common import summarize
 
@@ -21,9 +20,10 @@ RULE = ("Hypothesis generates configurations that mix scripted agents with (trac
         "(120 thorough), and a runner seed. The digest (SHA-256 over every logger record, every agent consultation and "
         "callback, every hook invocation, all market series, final books and holdings, serialised by field values) of the run "
         "must be identical (a) for two runs in one process, the second after 1000 draws from random / numpy.random and an "
-        "unrelated simulation, and (b) in 2 (quick) / 4 (thorough) persistent worker processes per shard started with "
-        "different PYTHONHASHSEED values (3 / 5 distinct hash seeds per case, 17 / 65 over a run) and differently seeded global "
-        "generators; the settings dict must be deep-equal before and after; a different seed must change the digest. "
+        "earlier run of a different configuration B (independent, or derived from A: same ids but other volatilities / "
+        "correlations / prices / seed, so that state keyed by ids would leak), and (b) in 2 (quick) / 4 (thorough) FRESH "
+        "interpreters per case started with different PYTHONHASHSEED values (drawn per case from 1..4000) and differently seeded "
+        "global generators; the settings dict must be deep-equal before and after; a different seed must change the digest. "
         "Non-trivial = configuration with >=3 agent classes and >=1 event whose run has >=50 log records.")
 ASSUMPTIONS = ["hash-seed dependence that needs a specific collision pattern may need more hash seeds than were used (stated above)"]
 
@@ -34,7 +34,8 @@ N_WORKERS = {"quick": 2, "thorough": 4}
 def cases(draw, tier):
     big = tier == "thorough"
     case = draw(sim_cases(n_markets=(2, 3), index_prob=1, vol_zero=False, builtin=True, correlations=True, n_sessions=(1, 3),
-                          steps=(1, 40) if big else (1, 14), agents_per_group=(1, 3), placement=True, probes=True, caps=(1, 5)))
+                          steps=(1, 40) if big else (1, 14), agents_per_group=(1, 3), placement=True, probes=True, caps=(1, 5),
+                          random_endowment=True))
     cfg = case["config"]
     names = [m for m in cfg["simulation"]["markets"] if m != "IDX"]
     allm = list(cfg["simulation"]["markets"])
@@ -74,38 +75,26 @@ def cases(draw, tier):
     return case
 
 
-class Workers:
-    def __init__(self, shard: int, n: int):
-        self.procs = []
-        self.hash_seeds = []
-        for j in range(n):
-            hs = 1 + shard * n + j
-            env = dict(os.environ, PYTHONHASHSEED=str(hs), C07_SALT=str(hs), VERIF_REEXEC="1")
-            p = subprocess.Popen([sys.executable, os.path.join(VERIF_DIR, "pbt", "c07_worker.py")], stdin=subprocess.PIPE, stdout=subprocess.PIPE,
-                                 env=env, text=True, bufsize=1)
-            self.procs.append(p)
-            self.hash_seeds.append(hs)
-
-    def ask(self, case):
-        line = json.dumps(case) + "\n"
-        for p in self.procs:
-            p.stdin.write(line)
-            p.stdin.flush()
-        out = []
-        for p in self.procs:
-            ans = p.stdout.readline()
-            if not ans:
-                raise RuntimeError("C07 worker died")
-            out.append(json.loads(ans))
-        return out
-
-    def close(self):
-        for p in self.procs:
-            try:
-                p.stdin.close()
-                p.wait(timeout=10)
-            except Exception:  # noqa: BLE001
-                p.kill()
+def ask_fresh_workers(plans):
+    """plans: [(hash_seed, [case, ...])]; one FRESH interpreter per plan (in parallel); returns the digest records per plan."""
+    procs = []
+    for hs, runs in plans:
+        env = dict(os.environ, PYTHONHASHSEED=str(hs), C07_SALT=str(hs), VERIF_REEXEC="1", OPENBLAS_NUM_THREADS="1", OMP_NUM_THREADS="1")
+        p = subprocess.Popen([sys.executable, os.path.join(VERIF_DIR, "pbt", "c07_worker.py")], stdin=subprocess.PIPE, stdout=subprocess.PIPE,
+                             stderr=subprocess.PIPE, env=env, text=True)
+        procs.append((p, json.dumps({"runs": runs})))
+    out = []
+    for p, doc in procs:
+        o, e = p.communicate(doc, timeout=900)
+        lines = [x for x in o.splitlines() if x.strip().startswith("[")]
+        if not lines:
+            raise RuntimeError(f"C07 worker produced no answer: {e[-800:]}")
+        ans = json.loads(lines[-1])
+        for a in ans:
+            if "error" in a:
+                raise RuntimeError(f"C07 worker error: {a['error']}")
+        out.append(ans)
+    return out
 
 
 _UNRELATED = {"config": {"simulation": {"markets": ["M0"], "agents": ["B0"],
@@ -115,66 +104,106 @@ _UNRELATED = {"config": {"simulation": {"markets": ["M0"], "agents": ["B0"],
                          "B0": crossing_pair(["M0"])}, "seed": 99}
 
 
-def make_check(workers):
+def hash_seeds_for(case, n):
+    base = case["A"]["seed"] % 997
+    return [1 + (base * 7 + j * 131) % 4000 for j in range(n)]
+
+
+def make_check(n_workers):
     def check_case(case):
-        d1 = digest_case(case)
-        if not d1["settings_unchanged"]:
+        A, B = case["A"], case.get("B") or _UNRELATED
+        other = dict(A, seed=(A["seed"] + 1) % (2**31))
+        hs = hash_seeds_for(case, n_workers)
+        # every comparison is between FRESH interpreters, so a failure is a function of the case alone:
+        #   worker 0 (hash seed 0):        A, then A again, then A with another seed
+        #   worker 1 (hash seed h1):       B (a different, possibly id-sharing configuration) first, then A
+        #   workers 2.. (hash seeds h2..): A
+        plans = [(0, [A, A, other]), (hs[0], [B, A])] + [(h, [A]) for h in hs[1:]]
+        ans = ask_fresh_workers(plans)
+        ref = ans[0][0]
+        if "crash" in ref:
+            raise PamsCrashProxy(ref)
+        if not ref["settings_unchanged"]:
             raise Violation("C07.settings_modified", "the settings dict handed to the runner differs after the run")
-        rnd = random.Random(case["seed"] ^ 0xC07)
-        random.seed(rnd.random())
-        np.random.seed(rnd.randrange(2**32))
-        for _ in range(1000):
-            random.random()
-            np.random.random()
-        digest_case(_UNRELATED)
-        d2 = digest_case(copy.deepcopy(case))
-        if d1["digest"] != d2["digest"]:
-            raise Violation("C07.same_process_rerun", "two runs of the same (configuration, seed) in one process differ (second run after draws from the global "
-                                                      "generators and an unrelated simulation)")
-        n_hash = 1
-        if workers is not None:
-            for hs, ans in zip(workers.hash_seeds, workers.ask(case)):
-                if "error" in ans:
-                    raise RuntimeError(f"worker error: {ans['error']}")
-                n_hash += 1
-                if ans["digest"] != d1["digest"]:
-                    raise Violation("C07.hash_seed_or_global_state", f"the run differs in a process started with PYTHONHASHSEED={hs} and differently seeded global generators")
-        other = dict(case, seed=(case["seed"] + 1) % (2**31))
-        changed = digest_case(other)["digest"] != d1["digest"]
-        nt = len(d1["classes"]) >= 4 and d1["n_logs"] >= 50 and any(c for c in d1["classes"] if "Shock" in c or "Rule" in c or "Probe" in c)
-        return CaseInfo(nontrivial=nt, classes=(["seed_changes_outcome"] if changed else ["seed_irrelevant"]) + [f"hash_seeds_{n_hash}"] + d1["classes"],
-                        steps=d1["records"], sample={"case": summarize(case), "digest": d1["digest"], "records": d1["records"], "classes": d1["classes"]})
+        if ans[0][1]["digest"] != ref["digest"]:
+            raise Violation("C07.same_process_rerun", "two runs of the same (configuration, seed) in one fresh process differ (the second after 1000 draws from the "
+                                                      "global generators)")
+        if ans[1][1]["digest"] != ref["digest"]:
+            raise Violation("C07.earlier_run_or_hash_seed", f"the run differs in a fresh process (PYTHONHASHSEED={hs[0]}) in which another configuration was run first")
+        for h, a in zip(hs[1:], ans[2:]):
+            if a[0]["digest"] != ref["digest"]:
+                raise Violation("C07.hash_seed_or_global_state", f"the run differs in a fresh process started with PYTHONHASHSEED={h} and differently seeded global generators")
+        changed = ans[0][2]["digest"] != ref["digest"]
+        nt = len(ref["classes"]) >= 4 and ref["n_logs"] >= 50 and any(c for c in ref["classes"] if "Shock" in c or "Rule" in c or "Probe" in c)
+        return CaseInfo(nontrivial=nt, classes=(["seed_changes_outcome"] if changed else ["seed_irrelevant"]) + [f"hash_seeds_{1 + len(hs)}"] + ref["classes"]
+                        + (["related_B"] if case.get("related") else []),
+                        steps=ref["records"], sample={"case": summarize(A), "digest": ref["digest"], "records": ref["records"], "classes": ref["classes"],
+                                                     "hash_seeds": [0] + hs})
 
     return check_case
 
 
+class PamsCrashProxy(PamsCrash):
+    """a pams crash that happened inside a worker process."""
+
+    def __init__(self, rec):
+        Exception.__init__(self, rec["digest"])
+        f, t = rec["crash"].rsplit(":", 1)
+        self._file, self.exc_type, self.exc_msg, self.tb_text = f, t, rec["digest"], rec.get("tb", "")
+        self.frames, self.pams_frames, self.innermost_is_pams, self.where = [], [], True, "worker"
+
+    def innermost_pams_file(self):
+        return self._file
+
+
+@st.composite
+def pair_cases(draw, tier):
+    A = draw(cases(tier))
+    kind = draw(st.sampled_from(["independent", "related", "related", "none"]))
+    if kind == "none":
+        return {"A": A, "B": None, "related": False}
+    if kind == "independent":
+        return {"A": A, "B": draw(cases(tier)), "related": False}
+    # a related earlier run: same market / agent ids but other volatilities, correlations, seed
+    B = copy.deepcopy(A)
+    cfg = B["config"]
+    for m in cfg["simulation"]["markets"]:
+        if m != "IDX":
+            cfg[m]["fundamentalVolatility"] = draw(st.sampled_from([0.002, 0.02, 0.08]))
+            cfg[m]["marketPrice"] = draw(st.sampled_from([100.0, 300.0, 50.5, 1000.0]))
+    vol = [m for m in cfg["simulation"]["markets"] if m != "IDX"]
+    if len(vol) >= 2:
+        if draw(st.booleans()):
+            cfg["simulation"]["fundamentalCorrelations"] = {"pairwise": [[vol[0], vol[1], draw(st.sampled_from([-0.7, 0.6, 0.9]))]]}
+        else:
+            cfg["simulation"].pop("fundamentalCorrelations", None)
+    B["seed"] = draw(st.integers(0, 2**31 - 1))
+    return {"A": A, "B": B, "related": True}
+
+
+def sim_check_quick(case):
+    return make_check(N_WORKERS["quick"])(case)
+
+
+def sim_check_thorough(case):
+    return make_check(N_WORKERS["thorough"])(case)
+
+
 def shard(shard, n_shards, tier, seed, budget):
-    workers = Workers(shard, N_WORKERS[tier])
-    try:
-        rec = Recorder(ID, make_check(workers))
-        rec.shrink_budget_s = 60.0 if tier == "quick" else 200.0
-        run_hypothesis(rec, cases(tier), max_examples=budget, seed=derive_seed(ID, "sim", seed, shard))
-        res = rec.res
-        res["extra"]["hash_seeds_used"] = [0] + workers.hash_seeds
-        if rec.last_failure is not None:
-            res["violation"] = rec.last_failure
-        return res
-    finally:
-        workers.close()
-
-
-_replay_workers = None
+    rec = Recorder(ID, make_check(N_WORKERS[tier]))
+    rec.shrink_budget_s = 60.0 if tier == "quick" else 200.0
+    run_hypothesis(rec, pair_cases(tier), max_examples=budget, seed=derive_seed(ID, "sim", seed, shard))
+    res = rec.res
+    if rec.last_failure is not None:
+        res["violation"] = rec.last_failure
+    return res
 
 
 def replay(case):
-    w = Workers(0, 2)
-    try:
-        return make_check(w)(case)
-    finally:
-        w.close()
+    return make_check(N_WORKERS["thorough"])(case)
 
 
-PARTS = {"sim": {"shard": shard, "replay": replay, "budget": {"quick": 160, "thorough": 1600}, "n_shards": 8}}
+PARTS = {"sim": {"shard": shard, "replay": replay, "budget": {"quick": 96, "thorough": 1600}}}
 
 
 def vacuity(merged, tier):
